@@ -100,8 +100,77 @@ def apply(modules) -> dict:
     stats = {"constants": [], "namedtuples": []}
     _constants(modules, known, stats)
     _namedtuples(modules, known, stats)
+    stats["unrolled_attribute_loops"] = _unroll_attribute_loops(modules)
     stats["named_conditions"] = _named_conditions(modules, known)
     return stats
+
+
+# ---------------------------------------------------------------------------------------------------------------- N4
+def _unroll_attribute_loops(modules) -> int:
+    """N4: `for name in ("role", "email", "phone"): v = getattr(obj, name) ...` - a loop over a literal tuple / list of at most 8 string constants whose body
+    reads or writes attributes through the loop variable (getattr / setattr / hasattr) is written out once per constant, `getattr(o, "c")` becomes `o.c`
+    and a statement `setattr(o, "c", v)` becomes `o.c = v`: the same program without the dynamic attribute access"""
+    import copy as _copy
+
+    count = 0
+
+    def unroll(block):
+        nonlocal count
+        i = 0
+        while i < len(block):
+            st = block[i]
+            for fld in ("body", "orelse", "finalbody"):
+                sub = getattr(st, fld, None)
+                if isinstance(sub, list) and sub and isinstance(sub[0], ast.stmt) and not isinstance(st, (ast.FunctionDef, ast.AsyncFunctionDef, ast.ClassDef)):
+                    unroll(sub)
+            for h in getattr(st, "handlers", []) or []:
+                unroll(h.body)
+            if isinstance(st, (ast.FunctionDef, ast.AsyncFunctionDef, ast.ClassDef)):
+                unroll(st.body)
+            if isinstance(st, ast.For) and isinstance(st.target, ast.Name) and not st.orelse and isinstance(st.iter, (ast.Tuple, ast.List)) and 1 <= len(st.iter.elts) <= 8 and all(isinstance(e, ast.Constant) and isinstance(e.value, str) for e in st.iter.elts):
+                var = st.target.id
+                dyn = [c for b in st.body for c in ast.walk(b) if isinstance(c, ast.Call) and isinstance(c.func, ast.Name) and c.func.id in ("getattr", "setattr", "hasattr") and len(c.args) >= 2 and isinstance(c.args[1], ast.Name) and c.args[1].id == var]
+                ctrl = [c for b in st.body for c in ast.walk(b) if isinstance(c, (ast.Break, ast.Continue, ast.Return, ast.Yield, ast.YieldFrom))]
+                rebinds = [c for b in st.body for c in ast.walk(b) if isinstance(c, ast.Name) and c.id == var and isinstance(c.ctx, (ast.Store, ast.Del))]
+                if dyn and not ctrl and not rebinds:
+                    new = []
+                    for e in st.iter.elts:
+                        class _S(ast.NodeTransformer):
+                            def visit_Name(self, node):
+                                if node.id == var and isinstance(node.ctx, ast.Load):
+                                    return ast.copy_location(ast.Constant(value=e.value), node)
+                                return node
+
+                            def visit_Call(self, node):
+                                self.generic_visit(node)
+                                if isinstance(node.func, ast.Name) and node.func.id == "getattr" and len(node.args) == 2 and isinstance(node.args[1], ast.Constant) and isinstance(node.args[1].value, str) and node.args[1].value.isidentifier():
+                                    return ast.copy_location(ast.Attribute(value=node.args[0], attr=node.args[1].value, ctx=ast.Load()), node)
+                                return node
+
+                            def visit_Expr(self, node):
+                                self.generic_visit(node)
+                                c = node.value
+                                if isinstance(c, ast.Call) and isinstance(c.func, ast.Name) and c.func.id == "setattr" and len(c.args) == 3 and isinstance(c.args[1], ast.Constant) and isinstance(c.args[1].value, str) and c.args[1].value.isidentifier():
+                                    return ast.copy_location(ast.Assign(targets=[ast.Attribute(value=c.args[0], attr=c.args[1].value, ctx=ast.Store())], value=c.args[2]), node)
+                                return node
+
+                        for b in st.body:
+                            new.append(_S().visit(_copy.deepcopy(b)))
+                    block[i:i + 1] = new
+                    count += 1
+                    i += len(new)
+                    continue
+            i += 1
+
+    for m in modules.values():
+        unroll(m.tree.body)
+    if count:
+        from .model import set_parents
+
+        for m in modules.values():
+            ast.fix_missing_locations(m.tree)
+            set_parents(m.tree)
+    return count
 
 
 # ---------------------------------------------------------------------------------------------------------------- N3
